@@ -774,6 +774,7 @@ struct C01 {
         reject(QStringLiteral("parseInt<quint32>"), parseInt<quint32>(QStringLiteral("4294967296")).has_value(), QStringLiteral("4294967296"));
         reject(QStringLiteral("parseInt<qint32>"), parseInt<qint32>(QStringLiteral("2147483648")).has_value(), QStringLiteral("2147483648"));
         integerFields();
+        dateTimeFields();
         ctx.count(QStringLiteral("typed_field_checks"));
     }
 
@@ -849,6 +850,64 @@ struct C01 {
                 q.parse(el);
                 return get(q);
             });
+    }
+
+    // ---- date-time fields: set, serialise, parse, read back; with and without milliseconds, with time zone offsets
+    template<typename Obj, typename Set, typename Get>
+    void dtField(const QString &name, Set set, Get get, std::function<void(Obj &)> prep = {}, bool millisecondsKept = true)
+    {
+        ctx.count(QStringLiteral("datetime_fields"));
+        const QList<QDateTime> values = {
+            QDateTime(QDate(2020, 1, 1), QTime(0, 0, 0), Qt::UTC),
+            QDateTime(QDate(2010, 6, 29), QTime(8, 23, 6, 123), Qt::UTC),
+            QDateTime(QDate(1999, 12, 31), QTime(23, 59, 59, 999), Qt::UTC),
+            QDateTime(QDate(2038, 1, 19), QTime(3, 14, 8, 1), Qt::UTC),
+            QDateTime(QDate(2024, 2, 29), QTime(12, 0, 0, 500), Qt::OffsetFromUTC, 5 * 3600 + 1800),
+            QDateTime(QDate(2024, 2, 29), QTime(0, 30, 0), Qt::OffsetFromUTC, -8 * 3600),
+            QDateTime(QDate(1970, 1, 1), QTime(0, 0, 1), Qt::UTC),
+        };
+        for (const auto &v : values) {
+            ++ctx.evaluations;
+            ++ctx.nontrivial;
+            Obj o;
+            if (prep) {
+                prep(o);
+            }
+            set(o, v);
+            const QByteArray xml = writeXml([&](QXmlStreamWriter *w) { o.toXml(w); });
+            QDomDocument d;
+            const auto root = parseDoc(xml, &d, true);
+            Obj q;
+            if (!root.isNull()) {
+                q.parse(root);
+            }
+            const QDateTime got = get(q);
+            const qint64 want = millisecondsKept ? v.toMSecsSinceEpoch() : (v.toMSecsSinceEpoch() / 1000) * 1000;
+            if (!got.isValid() || got.toMSecsSinceEpoch() != want) {
+                ctx.violation(QStringLiteral("C01/typed-field-not-round-tripped:") + name,
+                              QStringLiteral("%1 = %2 comes back as %3 (serialised: %4)").arg(name, v.toString(Qt::ISODateWithMs), got.isValid() ? got.toUTC().toString(Qt::ISODateWithMs) : QStringLiteral("(invalid/absent)"), QString::fromUtf8(xml.left(300))),
+                              QJsonObject { { QStringLiteral("engine"), QStringLiteral("c01-typed") }, { QStringLiteral("field"), name }, { QStringLiteral("value"), v.toString(Qt::ISODateWithMs) } });
+                break;
+            }
+        }
+    }
+
+    void dateTimeFields()
+    {
+        using M = QXmppMessage;
+        dtField<M>(QStringLiteral("QXmppMessage.stamp"), [](M &o, const QDateTime &v) { o.setStamp(v); }, [](const M &o) { return o.stamp(); });
+        using P = QXmppPresence;
+        dtField<P>(QStringLiteral("QXmppPresence.lastUserInteraction"), [](P &o, const QDateTime &v) { o.setLastUserInteraction(v); }, [](const P &o) { return o.lastUserInteraction(); });
+        using T = QXmppEntityTimeIq;
+        dtField<T>(QStringLiteral("QXmppEntityTimeIq.utc"), [](T &o, const QDateTime &v) { o.setUtc(v); }, [](const T &o) { return o.utc(); }, [](T &o) { o.setType(QXmppIq::Result); });
+        using F = QXmppFileMetadata;
+        dtField<F>(QStringLiteral("QXmppFileMetadata.lastModified"), [](F &o, const QDateTime &v) { o.setLastModified(v); }, [](const F &o) { return o.lastModified().value_or(QDateTime()); });
+        using E = QXmppExternalService;
+        dtField<E>(QStringLiteral("QXmppExternalService.expires"), [](E &o, const QDateTime &v) { o.setExpires(v); }, [](const E &o) { return o.expires().value_or(QDateTime()); },
+                   [](E &o) { o.setHost(QStringLiteral("h")); o.setType(QStringLiteral("turn")); });
+        using S = QXmppStanza::Error;
+        dtField<S>(QStringLiteral("QXmppStanza::Error.retryDate"), [](S &o, const QDateTime &v) { o.setFileTooLarge(false); o.setRetryDate(v); }, [](const S &o) { return o.retryDate(); },
+                   [](S &o) { o.setType(QXmppStanza::Error::Wait); o.setCondition(QXmppStanza::Error::ResourceConstraint); });
     }
 
     void integerFields()
